@@ -260,6 +260,8 @@ func checkC01(w *World, r *Report) {
 		return strings.Contains(o.Key, "drain-starts-at-pill") || strings.Contains(o.Key, "nothing-after-stop")
 	})
 	importRules(w, r, checkC02, "C02", "C01.R5", func(o *Obligation) bool { return o.Rule == "C02.R2" || o.Rule == "C02.R3" || o.Rule == "C02.R1" || o.Rule == "C02.R7" })
+	// the PID a sender holds keeps naming the live actor: a refused duplicate spawn does not take over its registry entry
+	checkRegistryAdd(w, r, "C01.R5", a)
 	// across a crash: the unprocessed rest of the batch is buffered from the cursor, unconditionally, and replayed first
 	importRules(w, r, checkC05, "C05", "C01.R5", func(o *Obligation) bool {
 		return o.Rule == "C05.R3" && strings.Contains(o.Key, "buffer-from-cursor") || o.Rule == "C05.R2" && (strings.Contains(o.Key, "replay-before-inbox") || strings.Contains(o.Key, "clears-replayed-buffer"))
@@ -598,6 +600,16 @@ func checkC09(w *World, r *Report) {
 		return o.Rule == "C14.R1" || o.Rule == "C14.R2" || o.Rule == "C14.R3" || o.Rule == "C14.R4" || o.Rule == "C14.R5"
 	})
 	importRules(w, r, checkC10, "C10", "C09.R7", func(o *Obligation) bool { return o.Rule == "C10.R6" })
+	if r.Prop == "C09" {
+		// "delivered to every subscriber exactly once": the subscriber's batch loop delivers each element once (C01.R4), a
+		// graceful stop drains from the pill on (C07.R3), a crash buffers from the cursor and the buffer is replayed once
+		// (C05.R2/R3)
+		importRules(w, r, checkC01, "C01", "C09.R7", func(o *Obligation) bool { return o.Rule == "C01.R4" })
+		importRules(w, r, checkC07, "C07", "C09.R7", func(o *Obligation) bool { return o.Rule == "C07.R3" && strings.Contains(o.Key, "drain") })
+		importRules(w, r, checkC05, "C05", "C09.R7", func(o *Obligation) bool {
+			return o.Rule == "C05.R3" && strings.Contains(o.Key, "buffer-from-cursor") || o.Rule == "C05.R2" && (strings.Contains(o.Key, "replay-before-inbox") || strings.Contains(o.Key, "clears-replayed-buffer"))
+		})
+	}
 	// the event stream's and the subscribers' inboxes wake up for every accepted event (C03.R1-R3, R7); an inbound
 	// remote message keeps its own sender up to the dead letter (C15.R7)
 	importRules(w, r, checkC03, "C03", "C09.R7", func(o *Obligation) bool {
@@ -820,11 +832,18 @@ func checkC10(w *World, r *Report) {
 		}
 		r.Check(ok, "C10.R6", fname(pr.stopFn)+":releases-id", "Registry.Remove(p.pid) precedes the Stopped delivery on every path of the stop function", w.fnPos(pr.stopFn),
 			"a stopped actor whose Stopped handler panics stays registered: GetPID keeps answering and the id can never be spawned again")
+		all := w.Nodes(sg, EvCall("Registry.Remove", a.regRemove), false)
+		once, _ := sg.AtMostOnce(all)
+		r.Check(once, "C10.R6", fname(pr.stopFn)+":releases-id-once", "the stop function removes the registry entry once (before Stopped), never again afterwards", w.fnPos(pr.stopFn),
+			"Registry.Remove runs a second time (a deferred or trailing removal): Remove is by id, so if the id was spawned again while this actor handled Stopped the second removal evicts the live successor: it is alive but GetPID answers nil, and the id can be spawned a third time")
 	}
 	// (and not earlier than that: an id released while the actor still waits for its children can be spawned again
 	// next to the old, still living incarnation)
 	if r.Prop == "C10" {
 		importRules(w, r, checkC08, "C08", "C10.R6", func(o *Obligation) bool { return o.Rule == "C08.R1" && strings.HasSuffix(o.Key, ":children-first") })
+		// "after an actor has stopped its ID can be spawned again": a stop context that is done means the id is free
+		// (C07.R2: cancel only with the inbox stopped, the actor unregistered and Stopped delivered)
+		importRules(w, r, checkC07, "C07", "C10.R6", func(o *Obligation) bool { return o.Rule == "C07.R2" && strings.Contains(o.Key, "cancel-before-stopped") })
 	}
 	// R7: a process that was unregistered never comes back: it is not restarted after the budget
 	// was exhausted and its inbox is not reopened after cleanup (it would run cleanup again and
@@ -1467,6 +1486,7 @@ func checkC12(w *World, r *Report) {
 	})
 	r.Rule("C12.R7", "no event's Log method can panic in the event stream (the restarted stream would have lost every subscriber)", 1)
 	checkEventLogNilSafe(w, r, "C12.R7")
+	checkEventLogs(w, r, "C12.R7", nil)
 	r.Rule("C12.R8", "package actor never subscribes or unsubscribes on an actor's behalf: a subscription ends only by the subscriber's own Unsubscribe", 1)
 	{
 		var callers []string
@@ -1813,4 +1833,61 @@ func checkResponseChanOpen(w *World, r *Report, rule string) {
 	}
 	r.Check(len(closers) == 0, rule, "Response.result:never-closed", "the result channel of a Response is never closed (late and surplus replies are sent to it without blocking)", w.fnPos(w.Method("actor", "Response", "Send")),
 		"closed by "+strings.Join(closers, "; ")+": a reply that arrives afterwards (a late one, or the second of two) is a send on a closed channel and panics on the replier's goroutine — for a remote reply that is the stream handler, and the node dies")
+}
+
+// checkEventLogs: the event stream calls Log() on every event before it forwards it, on its own goroutine. A Log that
+// can panic takes the event, and with the restart of the event stream every subscription, with it. Beyond the *PID
+// fields (checkEventLogNilSafe), a Log method calls no method on an interface value it has not found non-nil (the
+// result of errors.Unwrap, a field of type error or any), and does not panic explicitly.
+func checkEventLogs(w *World, r *Report, rule string, only []string) {
+	want := map[string]bool{}
+	for _, n := range only {
+		want[n] = true
+	}
+	nChecked := 0
+	for _, fn := range w.Funcs {
+		if !w.isLib(fn) || fn.Name() != "Log" || fn.Signature.Recv() == nil || fn.Synthetic != "" || fn.Signature.Results().Len() != 3 {
+			continue
+		}
+		nt, _ := structOf(fn.Signature.Recv().Type())
+		if nt == nil || (len(want) > 0 && !want[nt.Obj().Name()]) {
+			continue
+		}
+		nChecked++
+		g := w.FGI(fn)
+		ok := true
+		detail := ""
+		for i, in := range g.ins {
+			if _, isPanic := in.(*ssa.Panic); isPanic {
+				ok, detail = false, "explicit panic at "+w.pos(in.Pos())
+				continue
+			}
+			c := callOf(in)
+			if c == nil || !c.IsInvoke() {
+				continue
+			}
+			v := c.Value
+			if w.nonNilAt(g, i, v) {
+				continue
+			}
+			// the value of a successful comma-ok assertion to an interface type is not nil
+			if ex, isE := v.(*ssa.Extract); isE && ex.Index == 0 {
+				if ta, isT := ex.Tuple.(*ssa.TypeAssert); isT && ta.CommaOk {
+					okEdges, _ := g.CondEdges(func(cv ssa.Value) (bool, bool) {
+						e2, isE2 := cv.(*ssa.Extract)
+						return true, isE2 && e2.Index == 1 && e2.Tuple == ssa.Value(ta)
+					})
+					if len(okEdges) > 0 && g.OnlyVia(okEdges, i) {
+						continue
+					}
+				}
+			}
+			ok = false
+			detail = w.pathOf(v) + "." + c.Method.Name() + "() at " + w.pos(in.Pos()) + " is called on an interface value that may be nil: the event stream panics on that event, the event is lost and the restarted event stream has no subscribers"
+		}
+		r.Check(ok, rule, nt.Obj().Name()+".Log:cannot-panic", nt.Obj().Name()+".Log calls no method on a possibly nil interface value and does not panic", w.fnPos(fn), detail)
+	}
+	if nChecked == 0 && len(want) > 0 {
+		r.OK(rule, "events:Log:cannot-panic", "the events in question have no Log method", "-")
+	}
 }
